@@ -1,5 +1,6 @@
-(** * C05 -- 3D sew/unsew and embedded data (statements proved so far; the data clauses are decided by
-    the executable specification Extract/Sew3Oracle.v applied to implementation observations). *)
+(** * C05 -- 3D sew/unsew and embedded data.  Proved: atomicity of refusals and the topology clause (a sew is the
+    link on images and flags); the data clauses are decided by the executable specification
+    Extract/Sew3Oracle.v applied to implementation observations. *)
 From Coq Require Import List NArith Bool.
 From HC Require Import Stm.Prog Stm.Atomic Map2.Ops2 Map2.State2 Map3.Ops3.
 Open Scope N_scope.
@@ -8,3 +9,39 @@ Theorem C05_refusal_is_atomic `{Sig} : forall E n ks c st e st',
   atomically E (call3_prog n ks c) st = (RErr e, st') -> st' = st.
 Proof. intros E n ks c. exact (atomically_err_noop E (call3_prog n ks c)). Qed.
 Print Assumptions C05_refusal_is_atomic.
+
+(** Topology clause: on EVERY store, a 3D sew / unsew (dimension 1, 2 or 3) that terminates normally changes the
+    images and the removal flags of every dart exactly as the corresponding link / unlink does -- the lock-step
+    walks of the 3-link included (the link run from the same store terminates normally too, and the two results
+    agree on all images and flags). *)
+From HC Require Import Stm.ProgFacts Map2.Wf2Proofs Map3.SewTopo3.
+Theorem C05_one_sew_topology `{Sig} : forall E n ks l r c w cnt w1 cnt1,
+  run E (one_sew3 n ks l r) c w cnt = (Done tt, w1, cnt1) ->
+  exists w2, run E (one_link3 l r) c w cnt = (Done tt, w2, cnt) /\ topo_eq w2 w1.
+Proof. exact one_sew3_topology. Qed.
+Print Assumptions C05_one_sew_topology.
+Theorem C05_one_unsew_topology `{Sig} : forall E n ks l c w cnt w1 cnt1,
+  run E (one_unsew3 n ks l) c w cnt = (Done tt, w1, cnt1) ->
+  exists w2, run E (one_unlink3 l) c w cnt = (Done tt, w2, cnt) /\ topo_eq w2 w1.
+Proof. exact one_unsew3_topology. Qed.
+Print Assumptions C05_one_unsew_topology.
+Theorem C05_two_sew_topology `{Sig} : forall E n ks l r c w cnt w1 cnt1,
+  run E (two_sew3 n ks l r) c w cnt = (Done tt, w1, cnt1) ->
+  exists w2, run E (two_link_core l r) c w cnt = (Done tt, w2, cnt) /\ topo_eq w2 w1.
+Proof. exact two_sew3_topology. Qed.
+Print Assumptions C05_two_sew_topology.
+Theorem C05_two_unsew_topology `{Sig} : forall E n ks l c w cnt w1 cnt1,
+  run E (two_unsew3 n ks l) c w cnt = (Done tt, w1, cnt1) ->
+  exists w2, run E (two_unlink_core l) c w cnt = (Done tt, w2, cnt) /\ topo_eq w2 w1.
+Proof. exact two_unsew3_topology. Qed.
+Print Assumptions C05_two_unsew_topology.
+Theorem C05_three_sew_topology `{Sig} : forall E n ks l r c w cnt w1 cnt1,
+  run E (three_sew3 n ks l r) c w cnt = (Done tt, w1, cnt1) ->
+  exists w2, run E (three_link n l r) c w cnt = (Done tt, w2, cnt) /\ topo_eq w2 w1.
+Proof. exact three_sew3_topology. Qed.
+Print Assumptions C05_three_sew_topology.
+Theorem C05_three_unsew_topology `{Sig} : forall E n ks l c w cnt w1 cnt1,
+  run E (three_unsew3 n ks l) c w cnt = (Done tt, w1, cnt1) ->
+  exists w2, run E (three_unlink n l) c w cnt = (Done tt, w2, cnt) /\ topo_eq w2 w1.
+Proof. exact three_unsew3_topology. Qed.
+Print Assumptions C05_three_unsew_topology.
